@@ -23,13 +23,16 @@ import (
 
 // C09Scenario is one preprocessing run.
 type C09Scenario struct {
-	FileSeed  uint64  `json:"file_seed"`
-	Records   int     `json:"records"`
-	Nets      int     `json:"nets"`
-	V2        bool    `json:"v2"`
-	BufSizes  []int   `json:"buf_sizes"` // sizes of the buffers the consumer hands to PreprocReader.Read (cycled)
-	SrcSizes  []int   `json:"src_sizes,omitempty"`
-	SrcErrAt  int     `json:"src_err_at"`
+	FileSeed uint64 `json:"file_seed"`
+	Records  int    `json:"records"`
+	Nets     int    `json:"nets"`
+	V2       bool   `json:"v2"`
+	BufSizes []int  `json:"buf_sizes"` // sizes of the buffers the consumer hands to PreprocReader.Read (cycled)
+	SrcSizes []int  `json:"src_sizes,omitempty"`
+	SrcErrAt int    `json:"src_err_at"`
+	// DstErrAt >= 0: the run goes through Codec.Preprocess(r, w) and the destination fails (a full
+	// disk) once that many bytes have been written; Preprocess must then report an error
+	DstErrAt  int     `json:"dst_err_at"`
 	NoFinalNL bool    `json:"no_final_newline,omitempty"`
 	Tape      []uint8 `json:"tape"`
 	TapeSeed  uint64  `json:"tape_seed"`
@@ -44,6 +47,7 @@ func drawC09(rt *rapid.T, tier string) C09Scenario {
 		V2:        rapid.Bool().Draw(rt, "v2"),
 		BufSizes:  rapid.SliceOfN(rapid.SampledFrom([]int{1, 2, 3, 7, 31, 64, 511, 512, 513, 1000, 4096}), 1, 3).Draw(rt, "buf_sizes"),
 		SrcErrAt:  -1,
+		DstErrAt:  -1,
 		NoFinalNL: rapid.IntRange(0, 5).Draw(rt, "nofinalnl") == 0,
 		Calm:      rapid.IntRange(0, 2).Draw(rt, "calm"),
 		TapeSeed:  rapid.Uint64().Draw(rt, "tape_seed"),
@@ -54,13 +58,39 @@ func drawC09(rt *rapid.T, tier string) C09Scenario {
 	if rapid.IntRange(0, 6).Draw(rt, "src_err") == 0 {
 		sc.SrcErrAt = rapid.IntRange(0, 3000).Draw(rt, "src_err_at")
 	}
+	if sc.SrcErrAt < 0 && rapid.IntRange(0, 6).Draw(rt, "dst_err") == 0 {
+		sc.DstErrAt = rapid.SampledFrom([]int{0, 1, 100, 511, 512, 513, 4096, 20000, 65535, 65536, 70000, 1 << 30}).Draw(rt, "dst_err_at")
+		if sc.DstErrAt == 1<<30 {
+			sc.DstErrAt = -2 // resolved at run time: the very last byte of the output
+		}
+	}
 	sc.Tape = rapid.SliceOfN(rapid.Uint8(), 0, 64).Draw(rt, "tape")
 	return sc
 }
 
+// fullDisk is an io.Writer that accepts limit bytes and then fails like a full disk.
+type fullDisk struct {
+	limit, n int
+	fired    bool
+}
+
+func (w *fullDisk) Write(p []byte) (int, error) {
+	if w.n+len(p) > w.limit {
+		k := w.limit - w.n
+		if k < 0 {
+			k = 0
+		}
+		w.n += k
+		w.fired = true
+		return k, errors.New("simulated: no space left on device")
+	}
+	w.n += len(p)
+	return len(p), nil
+}
+
 func summaryC09(sc C09Scenario) interface{} {
 	return map[string]interface{}{"records": sc.Records, "subnet_lines": sc.Nets, "v2_keys": sc.V2, "consumer_buffer_sizes": sc.BufSizes,
-		"source_read_sizes": sc.SrcSizes, "source_err_at": sc.SrcErrAt}
+		"source_read_sizes": sc.SrcSizes, "source_err_at": sc.SrcErrAt, "destination_err_at": sc.DstErrAt}
 }
 
 func preprocCodec() *dnsdata.Codec {
@@ -132,6 +162,46 @@ func runC09(t *testing.T, sc C09Scenario, keep bool) *core.Result {
 		res.Probe("lines_round_tripped")
 	}
 
+	if sc.DstErrAt != -1 {
+		// the whole-file entry point with a destination that runs full
+		res.Population = "faults"
+		limit := sc.DstErrAt
+		if limit == -2 {
+			plain, err := preprocess(lines, 4242)
+			if err != nil {
+				res.HarnessErr = "plain preprocess: " + err.Error()
+				return res
+			}
+			limit = len(strings.Join(plain, "\n")) // one byte short of the whole output
+		}
+		dst := &fullDisk{limit: limit}
+		var perr error
+		done := false
+		opt := sched.Options{Tape: sc.Tape, TapeSeed: sc.TapeSeed, Calm: sc.Calm, KeepSchedule: keep, MaxSteps: 200000, NoAdvanceWhileEnabled: true}
+		sched.Bubble(t, opt, func(s *sched.Sim) {
+			s.Go("preprocess", false, func() {
+				perr = preprocCodec().Preprocess(&segReader{data: []byte(text), st: C16Stream{Sizes: sc.SrcSizes, ErrAt: -1}}, dst)
+				done = true
+			})
+			if err := s.Run(); err != nil {
+				if errors.Is(err, sched.ErrDeadlock) {
+					res.Add("deadlock", "deadlock", "preprocessing never finishes: "+err.Error())
+				} else {
+					res.HarnessErr = err.Error()
+				}
+			}
+			res.FromSim(s)
+		})
+		if done && dst.fired {
+			res.Fault("destination-write-error")
+			if perr == nil {
+				res.Add("error-swallowed", "error-swallowed|destination", fmt.Sprintf("the destination failed after %d bytes but Preprocess reported success: a truncated file passes for a complete one", dst.n))
+			}
+		}
+		res.Nontrivial = len(lines) > 3
+		res.TraceHash += fmt.Sprintf("/%x/dst%d", sc.FileSeed, sc.DstErrAt)
+		return res
+	}
 	src := &segReader{data: []byte(text), st: C16Stream{Sizes: sc.SrcSizes, ErrAt: sc.SrcErrAt}}
 	var out bytes.Buffer
 	var rerr error
